@@ -16,6 +16,7 @@
   (run with the options vs run on the rewritten shapes graph).
 -/
 import PyshaclProofs.FocusProofs
+import PyshaclProofs.FocusSet
 namespace Pyshacl.C13
 open Pyshacl
 
@@ -82,6 +83,16 @@ theorem use_shapes_runs_selected_only (o : Opts) (hadv : o.advanced = false) (sg
           · split at h
             · rename_i hf; simp only [hf, if_true]; exact h
             · rename_i hf; simp only [hf, if_false]; exact h
+
+/-- **the sub-report is a function of the selected *set* of focus nodes**: together with `focus_narrows_targets_partial`
+    (the focus list under `focus_nodes = F` has the members of the narrowed target set) this gives: whatever list of focus
+    nodes with those members a shape is evaluated on — the filtered target list, or the targets of a target-rewritten
+    copy — verdict and result set are the same (same shapes graph otherwise; complete runs, non-advanced) -/
+theorem report_depends_on_focus_set (c : Ctx) (hab : c.o.abortOnFirst = false) (hadv : c.o.advanced = false) (rec' : Rec)
+    (s : Shape) (fl fl' : List Term) (hm : ∀ f, f ∈ fl ↔ f ∈ fl') (path : Option (List PathEntry))
+    (conf : Bool) (rs : List Result) (h : validateCore c rec' s fl path = .ok (conf, rs)) :
+    ∃ rs', validateCore c rec' s fl' path = .ok (conf, rs') ∧ ∀ r, r ∈ rs ↔ r ∈ rs' :=
+  validateCore_focus_set c hab hadv rec' s fl fl' hm path conf rs h
 
 /-! non-vacuity: the repaired defect — a violating value node outside F is still reported for the selected focus node -/
 def exN (s : String) : Term := .iri ("http://ex.test/" ++ s)
